@@ -70,6 +70,18 @@ def build_driver():
 
 
 def _run_extract(crates, outdir, repo):
+    """one extraction; a fact file left over from an earlier run (cargo judged a member fresh although its fingerprint was removed, seen
+    under heavy load) is retried once with the members forgotten again"""
+    try:
+        return _run_extract_once(crates, outdir, repo)
+    except SystemExit as e:
+        if "stale fact file" not in str(e) and "no fact file" not in str(e):
+            raise
+        time.sleep(1.0)
+        return _run_extract_once(crates, outdir, repo)
+
+
+def _run_extract_once(crates, outdir, repo):
     build_driver()
     target = os.environ.get("S3SV_TARGET") or os.path.join(CACHE, "target")
     os.makedirs(target, exist_ok=True)
